@@ -1,6 +1,55 @@
-(* C19 — Var-built terms and forgetting: structure of built terms; forget is total, type preserving and IS the substitution of the Forget generator maps (uniform var edges become one merged node / nothing, everything else kept). The clause 'forget(build) evaluates to the expression' is decided by the correspondence check (see DESIGN.md).
+(* C19 — Var-built terms mean the expression written; forgetting copies keeps meaning (structure, forget = substitution, total, type preserving, and the semantic clause: forget(build prog) evaluates to the expression).
    Property theorems only: each statement is spelled out and closed by [exact] of a lemma proved in Proofs/. *)
-From OHG Require Import Spec.Plain Proofs.C19Thm Proofs.C19bLemmas Proofs.C19bThm.
+From OHG Require Import Spec.Plain Proofs.C19Thm Proofs.C19bLemmas Proofs.C19bThm Proofs.C19cSem Proofs.C19cThm.
+
+Theorem C19_semantic : C19_semantic_full.
+Proof. exact (@C19cThm.C19_semantic). Qed.
+
+Theorem C19_semantic_run : forall (prog : list (vcmd nat nat)) (ins outs : list nat) (inp r : list BinNums.Z),
+       SpecCheck.denote prog ins outs inp = Some r ->
+       (forall (op : nat) (args rts : list nat), In (CApply op args rts) prog -> op <> 9) ->
+       var_eval_run VecBackend prog ins outs inp = Ok (Some r).
+Proof. exact (@C19cThm.C19_semantic_run). Qed.
+
+Theorem C19_semantic_any_backends : forall B B' : Backend,
+       BackendOK B ->
+       BackendOK B' ->
+       forall (prog : list (vcmd nat nat)) (ins outs : list nat) (inp r : list BinNums.Z),
+       SpecCheck.denote prog ins outs inp = Some r ->
+       (forall (op : nat) (args rts : list nat), In (CApply op args rts) prog -> op <> 9) ->
+       var_eval_run2 B B' prog ins outs inp = Ok (Some r).
+Proof. exact (@C19cThm.C19_semantic_any_backends). Qed.
+
+Theorem C19_semantic_gen : forall B : Backend,
+       BackendOK B ->
+       forall B' : Backend,
+       BackendOK B' ->
+       forall (O A T : Type) (eqO : O -> O -> bool),
+       (forall x y : O, eqO x y = true <-> x = y) ->
+       forall eqA : A -> A -> bool,
+       (forall x y : A, eqA x y = true <-> x = y) ->
+       forall (var_label : A) (default : T) (interp : A -> list T -> list T),
+       (forall (a : A) (v v' : list T), length (interp a v) = length (interp a v')) ->
+       forall apply : list A -> ic (list T) -> res (ic (list T)),
+       C16Thm.apply_spec interp apply ->
+       forall (prog : list (vcmd O A)) (ins outs : list nat) (inp r : list T),
+       den default interp prog ins outs inp = Some r ->
+       (forall (op : A) (args : list nat) (rts : list O), In (CApply op args rts) prog -> op <> var_label) ->
+       exists (f g : lohg O A) (s : ohg O A),
+         var_build var_label prog ins outs false = Ok (Some f) /\
+         forget var_label eqO eqA B f = Ok g /\
+         lohg_to_strict B eqO g = Ok s /\
+         wf_ohg s /\ Iso (expected prog ins outs) (abs s) /\ eval B' default apply s inp = Ok (Some r).
+Proof. exact (@C19cThm.C19_semantic_gen). Qed.
+
+Theorem C19_forget_built_is_expected : forall (prog : list (vcmd nat nat)) (ins outs : list nat) (inp r : list BinNums.Z),
+       SpecCheck.denote prog ins outs inp = Some r ->
+       (forall (op : nat) (args rts : list nat), In (CApply op args rts) prog -> op <> 9) ->
+       exists (f g : lohg nat nat) (s : ohg nat nat),
+         var_build 9 prog ins outs false = Ok (Some f) /\
+         forget 9 Nat.eqb Nat.eqb VecBackend f = Ok g /\
+         lohg_to_strict VecBackend Nat.eqb g = Ok s /\ NIso (expected prog ins outs) (abs s).
+Proof. exact (@C19cThm.C19_forget_built_is_expected). Qed.
 
 Theorem C19_build_structure : forall (O A : Type) (var_label : A), C19_build_structure_full O A var_label.
 Proof. exact (@C19Thm.C19_build_structure). Qed.
@@ -250,6 +299,11 @@ Theorem C19_dyn_substitution : forall B : Backend,
          dyn_define_map_arrow F B eqO1 eqO2 f = Ok g /\ lohg_from_strict h = Ok g /\ labs g = abs h.
 Proof. exact (@C19bLemmas.dyn_substitution). Qed.
 
+Print Assumptions C19_semantic.
+Print Assumptions C19_semantic_run.
+Print Assumptions C19_semantic_any_backends.
+Print Assumptions C19_semantic_gen.
+Print Assumptions C19_forget_built_is_expected.
 Print Assumptions C19_build_structure.
 Print Assumptions C19_build_nodes.
 Print Assumptions C19_build_ops.
